@@ -66,7 +66,7 @@ type simNode struct {
 	hist    []confRec    // Stage D: the ConfState after every applied conf change, by index (a snapshot at index c carries the ConfState as of c)
 	// history for the safety predicates
 	hTerm, hCommit, hVoteTerm, hVote uint64
-	hPrefix                           []ent
+	hPrefix                          []ent
 }
 
 type confRec struct {
@@ -94,29 +94,29 @@ func (nd *simNode) recordConf(idx uint64, cs pb.ConfState) {
 }
 
 type profile struct {
-	name                                                              string
-	wTick, wDeliver, wDrop, wPropose, wCampaign, wCrash, wCompact     int
-	pDup                                                              float64
-	partition                                                         int // re-draw the partition every this many events (0: never)
-	pHeal                                                             float64
-	lag                                                               bool // keep one follower cut off for long stretches (forces MsgSnap after compaction)
-	paged                                                             bool // MaxSizePerMsg = 0: at most one entry per MsgApp (acks of old-term indexes, partial appends)
-	member                                                            int  // Stage D: weight of add/remove/promote events; such schedules are checked by the safety predicates only
-	lazy                                                              bool // Stage D only: an event handles ONE Ready/Advance cycle with probability 1/2 and leaves the rest pending (the application's
+	name                                                          string
+	wTick, wDeliver, wDrop, wPropose, wCampaign, wCrash, wCompact int
+	pDup                                                          float64
+	partition                                                     int // re-draw the partition every this many events (0: never)
+	pHeal                                                         float64
+	lag                                                           bool // keep one follower cut off for long stretches (forces MsgSnap after compaction)
+	paged                                                         bool // MaxSizePerMsg = 0: at most one entry per MsgApp (acks of old-term indexes, partial appends)
+	member                                                        int  // Stage D: weight of add/remove/promote events; such schedules are checked by the safety predicates only
+	lazy                                                          bool // Stage D only: an event handles ONE Ready/Advance cycle with probability 1/2 and leaves the rest pending (the application's
 	// ticks and steps interleave with its apply pages, as raftexample's select loop does); never used for lock-step profiles
-	applyPaged                                                        bool // Config.MaxCommittedSizePerReady = 1 byte: committed entries are handed to the application one per Ready (replication itself unpaged)
-	batch                                                             bool // Stage D only: every membership proposal is one MsgProp carrying 2-3 conf-change entries
-	mlock                                                             bool // Stage D: the schedule is replayed event by event on the config-aware handler RHC.handleC (lean/RaftDriver.lean)
-	grow                                                              bool // Stage D only: the cluster starts with node 1 as its only voter and grows by AddNode (the usual way a cluster is built)
-	deferAdv                                                          bool // lock-step profiles: with probability 1/3 a handled Ready is NOT advanced at once - the next input of that node (message, tick,
+	applyPaged bool // Config.MaxCommittedSizePerReady = 1 byte: committed entries are handed to the application one per Ready (replication itself unpaged)
+	batch      bool // Stage D only: every membership proposal is one MsgProp carrying 2-3 conf-change entries
+	mlock      bool // Stage D: the schedule is replayed event by event on the config-aware handler RHC.handleC (lean/RaftDriver.lean)
+	grow       bool // Stage D only: the cluster starts with node 1 as its only voter and grows by AddNode (the usual way a cluster is built)
+	deferAdv   bool // lock-step profiles: with probability 1/3 a handled Ready is NOT advanced at once - the next input of that node (message, tick,
 	// proposal, campaign) is stepped first and Advance follows it, as etcd's node.run does between `readyc <- rd` and `<-advancec` (the application is
 	// still persisting while the node goroutine keeps receiving).  Added after the seeded change C15-unstable-inplace-truncate: a conflicting append that
 	// arrives in that window rewrote the outstanding Ready's entries in place.
-	sized                                                             bool // entries of very different sizes (payload left-padded with zeros) under MaxSizePerMsg = 64 bytes: the size cut of a catch-up append falls between
+	sized bool // entries of very different sizes (payload left-padded with zeros) under MaxSizePerMsg = 64 bytes: the size cut of a catch-up append falls between
 	// a small and a large stable entry while a freshly proposed entry is still unstable (seeded change C15-slice-hole-after-maxsize-cut); with deferAdv the
 	// LEADER's handled Ready may also stay un-advanced across deliveries that cannot grow its log (anything but a proposal)
-	script                                                            bool // deferAdv only, 5 nodes: the schedule starts with a scripted prologue (scriptConflictInsideReady), then continues at random
-	prevote                                                           bool // Config.PreVote (+CheckQuorum): library features raftexample leaves off; outside the model, safety predicates only
+	script  bool // deferAdv only, 5 nodes: the schedule starts with a scripted prologue (scriptConflictInsideReady), then continues at random
+	prevote bool // Config.PreVote (+CheckQuorum): library features raftexample leaves off; outside the model, safety predicates only
 }
 
 var profiles = []profile{
@@ -147,24 +147,24 @@ type poolMsg struct {
 }
 
 type sim struct {
-	n       int
-	rng     *rand.Rand
-	nodes   []*simNode
-	pool    []poolMsg
-	inPool  map[string]bool
-	w       *bufio.Writer
-	nextPid uint64
-	group   []int // partition group per node
-	lagNode int
-	prof    profile
-	stats   map[string]int
-	leaders map[uint64]uint64 // term -> leader id ever observed
-	global  []ent             // every entry some node has ever committed, by index
-	evNo    int
-	bad     bool
-	ids     []uint64
-	propNext bool  // the event about to run delivers a forwarded proposal (it can grow a leader's log)
-	forced  string // profile deferAdv: key of the pool message to deliver next (a newer-term append that conflicts inside a Ready just left un-advanced)
+	n        int
+	rng      *rand.Rand
+	nodes    []*simNode
+	pool     []poolMsg
+	inPool   map[string]bool
+	w        *bufio.Writer
+	nextPid  uint64
+	group    []int // partition group per node
+	lagNode  int
+	prof     profile
+	stats    map[string]int
+	leaders  map[uint64]uint64 // term -> leader id ever observed
+	global   []ent             // every entry some node has ever committed, by index
+	evNo     int
+	bad      bool
+	ids      []uint64
+	propNext bool   // the event about to run delivers a forwarded proposal (it can grow a leader's log)
+	forced   string // profile deferAdv: key of the pool message to deliver next (a newer-term append that conflicts inside a Ready just left un-advanced)
 }
 
 func discardLogger() raft.Logger {
@@ -1208,19 +1208,21 @@ func (s *sim) scriptConflictInsideReady() {
 	if s.bad || s.nodes[L1].rn.BasicStatus().RaftState != raft.StateLeader {
 		return
 	}
-	s.doPropose(L1) // entry A
-	s.settle(func(m pb.Message) bool { return !toF(m) }) // A reaches 3, 4, 5 and is committed ...
-	s.dropMatch(toF)                                     // ... F misses it and the commit notice
-	s.doPropose(L1)                                      // entry B
+	s.doPropose(L1)                                                                // entry A
+	s.settle(func(m pb.Message) bool { return !toF(m) })                           // A reaches 3, 4, 5 and is committed ...
+	s.dropMatch(toF)                                                               // ... F misses it and the commit notice
+	s.doPropose(L1)                                                                // entry B
 	s.dropMatch(func(m pb.Message) bool { return !toF(m) && m.Type == pb.MsgApp }) // B is sent to F only ...
-	s.settle(func(m pb.Message) bool { return toF(m) && m.Type == pb.MsgApp })      // ... which rejects it (A is missing)
+	s.settle(func(m pb.Message) bool { return toF(m) && m.Type == pb.MsgApp })     // ... which rejects it (A is missing)
 	s.settle(func(m pb.Message) bool { return m.From == uint64(F+1) && m.Type == pb.MsgAppResp })
 	// the leader's retry [A, B] for F is now in the pool; before it is delivered, node 3 wins term 2 with the votes of 4 and 5
 	s.doCampaign(L2)
 	s.dropMatch(func(m pb.Message) bool { return m.Type == pb.MsgVote && (m.To == uint64(F+1) || m.To == uint64(L1+1)) })
 	s.settle(func(m pb.Message) bool { return m.Type == pb.MsgVote || m.Type == pb.MsgVoteResp })
 	// deliver the old leader's [A, B] to F: drain() finds the new leader's conflicting append in the pool, leaves the Ready un-advanced and forces it next
-	s.deliverMatch(func(m pb.Message) bool { return toF(m) && m.Type == pb.MsgApp && m.From == uint64(L1+1) && len(m.Entries) >= 2 })
+	s.deliverMatch(func(m pb.Message) bool {
+		return toF(m) && m.Type == pb.MsgApp && m.From == uint64(L1+1) && len(m.Entries) >= 2
+	})
 	s.stats["scripted-prologue"]++
 }
 
